@@ -689,6 +689,32 @@ class Model:
         num_scen = self.num_scen
         num_rand = self.sup_model.vars[-1].last
 
+        if not isinstance(constr, ExpPWConstr):
+            is_equal = (all(constr.sense) if
+                        isinstance(constr.sense, Iterable) else
+                        constr.sense == 1)
+            if is_equal:
+                if isinstance(constr, DecLinConstr):
+                    zeros = np.zeros(constr.linear.shape[0])
+                    left = DecLinConstr(constr.model,
+                                        constr.linear, constr.const, zeros,
+                                        constr.event_adapt, constr.fixed,
+                                        constr.ctype)
+                    right = DecLinConstr(constr.model,
+                                         -constr.linear, -constr.const, zeros,
+                                         constr.event_adapt, constr.fixed,
+                                         constr.ctype)
+                else:
+                    roaffine = RoAffine(constr.raffine, constr.affine,
+                                        constr.rand_model)
+                    left = DecRoConstr(roaffine, 0,
+                                       constr.event_adapt, constr.ctype)
+                    right = DecRoConstr(-roaffine, 0,
+                                        constr.event_adapt, constr.ctype)
+                left.ambset = constr.ambset
+                right.ambset = constr.ambset
+                return self.dro_to_roc(left) + self.dro_to_roc(right)
+
         # Ambiguity set of the constr
         ambset = constr.ambset if constr.ambset else self.obj_ambiguity
         if not ambset:
